@@ -33,8 +33,10 @@ J(name="c01.isValidCell", props=["C01", "C12", "C18"], harness="c01_isValidCell.
 # ------------------------------------------------------------------ C20
 PROPS["C20"] = dict(
     level="proof",
-    explanation="library half of the round trip proved by enforced contracts on h3ToString/stringToH3 (size guard, frame, exactly one "
-                "formatter/parser call with format \"%lx\" on the full 64-bit value, return codes); libc half assumed",
+    explanation="contracts on the BUFFER CONTENTS, enforced on the real h3ToString/stringToH3: size guard and frame (sz < 17: nothing written), "
+                "the buffer holds the lowercase unpadded hex text of h; the hex text of any value parses back to it; text that cannot start a "
+                "hex number is an error without result; libc's sprintf/sscanf for \"%lx\" enter by ASSUMED contracts whose preconditions "
+                "(format string, 64-bit operand, 17 writable bytes) are checked at the real call sites",
     trusted_base=["ASSUMED contracts of sprintf/sscanf for the format \"%lx\" (contracts/c20.contracts.h): lowercase unpadded hex, "
                   "1..16 digits + NUL; the parser inverts the formatter and stores nothing unless it returns 1"],
     not_decided=["that the C library's sprintf(\"%lx\") really prints lowercase unpadded hexadecimal and sscanf inverts it (assumed)"],
@@ -45,10 +47,10 @@ PROPS["C20"] = dict(
                "untouched; the round trip is a lemma composed from the contracts.",
     level_note="The behaviour of libc's sprintf/sscanf for \"%lx\" is an assumed contract (its preconditions are checked at the real "
                "call sites). Trusts CBMC/DFCC/MiniSat.")
-J(name="c20.h3ToString", props=["C20", "C12", "C18"], harness="c20.c", entry="h_h3ToString",
-  enforce=["h3ToString"], replace=["h3v_sprintf_lx"], replay=dict(fn="h3ToString", args=["h", "sz"]))
-J(name="c20.stringToH3", props=["C20", "C12", "C18"], harness="c20.c", entry="h_stringToH3",
-  enforce=["stringToH3"], replace=["h3v_sscanf_lx"], replay=dict(fn="stringToH3", args=[]))
+J(name="c20.h3ToString", props=["C20", "C12", "C18"], harness="c20.c", entry="h_h3ToString", unwind=20,
+  enforce=["h3ToString"], replace=["h3v_sprintf_lx"], optional_replace=["h3v_sprintf_lx"], replay=dict(fn="h3ToString", args=["h", "sz"]))
+J(name="c20.stringToH3", props=["C20", "C12", "C18"], harness="c20.c", entry="h_stringToH3", unwind=20,
+  enforce=["stringToH3"], replace=["h3v_sscanf_lx"], optional_replace=["h3v_sscanf_lx"], replay=dict(fn="stringToH3", args=[]))
 J(name="c20.roundtrip", props=["C20"], harness="c20.c", entry="h_roundtrip",
   replace=["h3ToString", "stringToH3"], replay=dict(fn="h3ToString", args=["h", "=17"]))
 
